@@ -64,7 +64,9 @@ def run(ctx):
     if sm is None:
         r.undecidable(B, "should_skip_module not found")
     else:
-        paths = explore(sm, pure=lambda c: True)
+        from absint import external_or
+        paths = explore(sm, pure=external_or(("utils::contains_skip", "::ignore_file", "is_generated_file", "Module::<'a>::attrs",
+                                              "span_to_file_contents")), program=p, inline="auto")
         r.paths(B, len(paths))
 
         def atom_of(key, val):
@@ -92,11 +94,12 @@ def run(ctx):
             return a["skip"] or (a["sc"] and a["notmain"]) or (not a["stdin"] and a["ign"]) or \
                 (not a["stdin"] and not a["fgf"] and a["gen"])
 
+        from absint import bool_outcome
+
         def outcome(path):
             if path.end != "ret" or path.ret is None:
                 return None
-            v = path.ret
-            return v[1] if v[0] == "k" and isinstance(v[1], bool) else "dyn:" + vkey(v)
+            return bool_outcome(path.ret, atom_of)
         Bv = [False, True]
         res = check_table(paths, atom_of, spec, outcome, {k: Bv for k in ("skip", "sc", "notmain", "stdin", "ign", "fgf", "gen")})
         r.cells(B, res["cells"])
